@@ -33,7 +33,10 @@ for d in sorted(os.listdir(root)):
         if r.returncode != 0:
             res["apply"] = r.stdout[-300:]
         else:
-            for pid in sorted(PROPS):
+            only_checks = [x for x in os.environ.get("BENIGN_CHECKS", "").split(",") if x]
+            res = dict(prev.get(d, {})) if only_checks else res
+            res.pop("apply", None)
+            for pid in (only_checks or sorted(PROPS)):
                 r = subprocess.run(["/verif/check", pid, "quick"], env=dict(os.environ, VERIF_REPO=wt, VERIF_OUT_DIR=out), stdout=subprocess.PIPE,
                                    stderr=subprocess.STDOUT, text=True)
                 lines = [l for l in r.stdout.splitlines() if "class=" in l or l.startswith("VIOLATION") or l.startswith("check:")]
